@@ -58,6 +58,7 @@ def refShapes (m : AMap) (e : Msg) : List (List Cb) :=
 structure Mon where
   started : Bool := false
   isMap : Bool := true
+  isEvent : Bool := false
   ews : Bool := false
   tou : Bool := false
   phase : Phase := .U
@@ -161,11 +162,28 @@ def Mon.stepVal (mon : Mon) (op : VOp) (observed : String) : Mon × Option Strin
   | .eof => (mon.endPhase, none)
   | .reconnect => (mon, none)
 
+/-- event downlinks (hosted): no value to fold — `on_synced` at `synced`, `on_event v` per event when synced or
+`events_when_not_synced` -/
+def Mon.stepEvt (mon : Mon) (op : VOp) (observed : String) : Mon × Option String :=
+  match op with
+  | .note .synced =>
+    if mon.phase = .L then
+      ({ mon with phase := .S }, if observed == "on_synced" then none
+        else if !containsSynced observed then some "on_synced-missing" else some "on_synced-repeated")
+    else ({ mon with illegal := true }, none)
+  | .note (.ev b) =>
+    if mon.phase = .L || mon.phase = .S then
+      let expected := if mon.disp then renderCbs [.event b] none else "-"
+      if observed == expected then (mon, none)
+      else (mon, some (if mon.disp then "callbacks-differ-from-fold" else "callbacks-while-suppressed"))
+    else ({ mon with illegal := true }, none)
+  | op => mon.stepVal op observed
+
 def Mon.step (mon : Mon) (line : String) (observed : String) : Mon × Option String :=
   let ws := words line
   match ws with
-  | ["new", _, kind, ews, tou] =>
-    ({ started := true, isMap := kind == "map", ews := ews == "1", tou := tou == "1" },
+  | "new" :: _ :: kind :: ews :: tou :: _opts =>
+    ({ started := true, isMap := kind == "map", isEvent := kind == "event", ews := ews == "1", tou := tou == "1" },
       if observed == "ok" then none else some "new-rejected")
   | _ =>
     if !mon.started then (mon, none)
@@ -197,7 +215,7 @@ def Mon.step (mon : Mon) (line : String) (observed : String) : Mon × Option Str
       | none => (mon, some "unparsable")
     else
       match parseVOp ws with
-      | some op => mon.stepVal op observed
+      | some op => if mon.isEvent then mon.stepEvt op observed else mon.stepVal op observed
       | none => (mon, some "unparsable")
 
 end SwimVerif.Dl
